@@ -378,6 +378,11 @@ Fixpoint replay_sym (sto : store) (m : cmem) (bs : list rblock) : store * list N
   end.
 (* roots may differ between the replicas only after a block was accepted (class K_ROOT, shared store only) *)
 Definition K_ROOT : N := 5.
+Fixpoint untouched (prev : N) (r : list (N * N)) : bool :=
+  match r with
+  | [] => true
+  | (c, i) :: t => (N.eqb c 0 || N.eqb i prev) && untouched i t
+  end.
 Fixpoint roots_agree (acc : bool) (r1 r2 : list (N * N)) : N :=   (* 0 agree, 1 differ after an accept, 2 differ before *)
   match r1, r2 with
   | (c1, i1) :: t1, (c2, i2) :: t2 =>
@@ -389,21 +394,26 @@ Fixpoint roots_agree (acc : bool) (r1 r2 : list (N * N)) : N :=   (* 0 agree, 1 
 (* (K, genesis ts, shared store?, blocks, replica 1: [(result, root id after the block)], replica 2 likewise, dump 1, dump 2) *)
 (* ... and (direct 1, direct 2): state-root ids after applying ALL offered transaction lists, in order, straight to two
    fresh stores with apply_transaction_to_store (what every replica does with a block) *)
-Definition replay_case := (N * N * bool * list rblock * list (N * N) * list (N * N) * list (option bytes) * list (option bytes) * (N * N))%type.
+Definition replay_case := (N * N * bool * list rblock * list (N * N) * list (N * N) * list (option bytes) * list (option bytes) * (N * N) * list N * (N * N))%type.
 Definition check_replay (c : replay_case) : N :=
-  let '(K, gts, shared, bs, r1, r2, d1, d2, dr) := c in
+  let '(K, gts, shared, bs, r1, r2, d1, d2, dr, only, ini) := c in
+  (* `only`: 0 = the block went to both replicas, 1 / 2 = to replica 0 / 1 alone (an earlier block delivered again);
+     `ini`: root ids before the first block *)
+  let both := fun {A} (l : list A) => map snd (filter (fun ox => N.eqb (fst ox) 0) (combine only l)) in
   let ra := roots_agree false r1 r2 in
+  (* a refused block leaves that replica's store untouched *)
+  if negb (untouched (fst ini) r1 && untouched (snd ini) r2) then (if shared then V_KNOWN K_ROOT else V_VIOLATION) else
   if negb (N.eqb (fst dr) (snd dr)) then V_VIOLATION else
   (* a block the harness gave a false state root is accepted by NO replica *)
   if negb (forallb (fun br => snd (fst (fst br)) || (negb (N.eqb (fst (fst (snd br))) 0) && negb (N.eqb (fst (snd (snd br))) 0)))
                    (combine bs (combine r1 r2))) then V_VIOLATION else
-  if negb (list_eqb N.eqb (map fst r1) (map fst r2) && dump_eqb d1 d2 && N.eqb (N.of_nat (length r1)) (N.of_nat (length r2))) then V_VIOLATION
+  if negb (list_eqb N.eqb (map fst (both r1)) (map fst (both r2)) && dump_eqb d1 d2 && N.eqb (N.of_nat (length r1)) (N.of_nat (length r2))) then V_VIOLATION
   else if N.eqb ra 2 then V_VIOLATION
   else if N.eqb ra 1 then (if shared then V_KNOWN K_ROOT else V_VIOLATION)
   else
     let s0 := init_st gts in
-    let '(sto, es) := replay_sym (t_store s0) (t_mem s0) bs in
-    if list_eqb N.eqb es (map fst r1) && dump_eqb (dump K (s_data sto)) d1 then V_OK else V_MISMATCH.
+    let '(sto, es) := replay_sym (t_store s0) (t_mem s0) (both bs) in
+    if list_eqb N.eqb es (map fst (both r1)) && dump_eqb (dump K (s_data sto)) d1 then V_OK else V_MISMATCH.
 
 End Inst.
 
